@@ -350,6 +350,9 @@ func classify(s *Stats, c *Case, m *Model, sh shape, shOK bool) {
 		ld = "fresh"
 	}
 	s.class("load=" + ld)
+	if c.Over {
+		s.class("load_into_used_instance")
+	}
 	s.class("gen=" + c.Gen)
 	if c.HasVals {
 		s.class("valmode=" + c.VMode)
